@@ -710,6 +710,8 @@ ALPHABETS = {
     "latin_1": "abcXYZ 019éüÄß©ÿ",
     "cp1251": "abcXYZ 019ЖжЯ",
 }
+BOUNDARY_NAMES = {"utf_8": [("\u00e9", 127), ("\u00e9", 128), ("\u6f22", 85), ("\u6f22", 86)],
+                  "shift_jis": [("\u6f22", 127), ("\u6f22", 128)]}
 I32X = [-2 ** 31, -2 ** 31 + 1, -1, 0, 1, 2 ** 31 - 1, 255, 256, 65535, 65536]
 PAYX = [0, 0, 1, 2, 3, 4, 5, 7, 8, 9, 12, 13, 15, 16, 17, 31, 33]
 NOCLASS_KEYS = [b"Alph", b"Layr", b"shpa", b"tySh"]           # Tag members without a registered class
@@ -738,6 +740,10 @@ def g_payload(rng, big=False):
 def g_name(rng, enc):
     """bytes of a name that the codec round-trips (decode(encode(s)) == s checked by the caller's oracle)"""
     al = ALPHABETS[enc]
+    if enc in BOUNDARY_NAMES and rng.random() < 0.06:
+        # the 255-BYTE limit of the count byte with multi-byte characters: 254 / 255 bytes fit, 256 / 258 must be refused
+        ch, n = rng.choice(BOUNDARY_NAMES[enc])
+        return (ch * n).encode(enc)
     for _ in range(20):
         n = rng.choice([0, 0, 1, 2, 3, 4, 5, 6, 7, 8, 30]) if rng.random() < 0.8 else rng.randint(0, 60)
         s = "".join(rng.choice(al) for _ in range(n))
@@ -2445,3 +2451,144 @@ def typed_container_cases():
             for v, pad in ((1, 1), (2, 4), (2, 1)):
                 yield ("block %s %s %s v%d pad%d" % (key.value.decode("ascii"), cls.__name__, how, v, pad),
                        T.TaggedBlock(b"8BIM", key, obj), (v, pad), (v, pad), obj)
+
+
+# ----------------------------------------------------------------------------- boundary instances of the oracle-only payload classes
+def boundary_payloads():
+    """yield (label, obj): hand-built instances of the element classes of psd/adjustments.py, vector.py, linked_layer.py,
+    filter_effects.py and image_resources.py with every count / size / version field at the ends of the range its reader
+    accepts (asserts and validators of the source: curve points 2 and 19, 29(+n) level records, 256-entry maps, 6 hue ranges,
+    10 selective-colour plates, linked layer versions 1..7, filter effect versions, max_channels + 2 channels, empty and
+    non-empty list-like resources ...).  Each is placed by the caller into the container registered for its class."""
+    from psd_tools.constants import AlphaChannelMode, LinkedLayerType
+    from psd_tools.psd import adjustments as A, vector as V, linked_layer as LL, filter_effects as FE, image_resources as R
+    from psd_tools.psd import descriptor as D
+    from psd_tools.psd.base import ShortIntegerElement, EmptyElement, StringElement
+    from psd_tools.psd.color import Color
+
+    pts = lambda n: [(min(255, i * 14), 255 - min(255, i * 14)) for i in range(n)]
+    # ---- adjustments
+    for n in (2, 3, 18, 19):
+        yield "Curves v4 %d points" % n, A.Curves(False, 4, 1, [pts(n)], None)
+        yield "Curves v1 %d points, no extra" % n, A.Curves(False, 1, 0b101, [pts(n), pts(2)], None)
+        yield "Curves v1 %d points + Crv extra" % n, A.Curves(
+            False, 1, 0b1, [pts(n)], A.CurvesExtraMarker(version=4, items=[A.CurvesExtraItem(0, pts(n)), A.CurvesExtraItem(3, pts(19))]))
+    yield "Curves v4 no curve", A.Curves(False, 4, 0, [], None)
+    yield "Curves v4 map", A.Curves(True, 4, 2, [list(range(256)), [255 - i for i in range(256)]], None)
+    yield "Curves v1 map + extra", A.Curves(True, 1, 0b10, [list(range(256))],
+                                            A.CurvesExtraMarker(version=3, items=[A.CurvesExtraItem(1, list(range(256)))]))
+    rec = lambda i: A.LevelRecord(i % 254, 2 + i % 254, i % 256, 255 - i % 256, 10 + i)
+    yield "Levels 29 records", A.Levels(items=[rec(i) for i in range(29)], version=2, extra_version=None)
+    for n in (29, 30, 60):
+        yield "Levels %d records with Lvls extra" % n, A.Levels(items=[rec(i) for i in range(n)], version=2, extra_version=3)
+    cs = lambda i: A.ColorStop(i * 1000, 50, 0, (65535, i, 0, 0))
+    ts = lambda i: A.TransparencyStop(i * 4096, 50, 100 - i)
+    for ver, method in ((1, b"Gcls"), (3, b"Gcls"), (3, b"Lnr ")):
+        for n in (0, 1, 2, 5):
+            yield "GradientMap v%d %d stops" % (ver, n), A.GradientMap(
+                ver, 1, 0, "g%d" % n, method, [cs(i) for i in range(n)], [ts(i) for i in range(n)], 2, 4096, 32, 0, 7, 1, 0, 2048, 3,
+                [0, 0, 0, 0], [32768, 32768, 32768, 32768])
+    hs_items = [[(i, i + 1, i + 2, i + 3), (-i, i, 100 - i)] for i in range(6)]
+    yield "HueSaturation 6 ranges", A.HueSaturation(2, 1, (180, 100, -100), (-180, -100, 100), hs_items)
+    yield "SelectiveColor 10 plates", A.SelectiveColor(1, 1, [(i, -i, 100, -100) for i in range(10)])
+    yield "ChannelMixer", A.ChannelMixer(1, 0, [100, 0, 0, 0, -200], b"")
+    yield "ChannelMixer with tail", A.ChannelMixer(1, 1, [1, 2, 3, 4, 5], bytes(range(30)))
+    yield "PhotoFilter v3", A.PhotoFilter(3, (1, 2, 2 ** 32 - 1), None, None, 25, 1)
+    yield "PhotoFilter v2", A.PhotoFilter(2, None, 0, (65535, 0, 1, 2), 100, 0)
+    yield "BrightnessContrast", A.BrightnessContrast(65535, 0, 127, 255)
+    yield "ColorBalance", A.ColorBalance((-100, 0, 100), (1, 2, 3), (-32768, 32767, 0), 1)
+    yield "Exposure", A.Exposure(1, 0.5, -2.0, 1.0)
+    yield "Posterize", ShortIntegerElement(255)
+    yield "Invert", EmptyElement()
+    # ---- vector
+    K = lambda cls, a: cls((a, -a), (a / 2, 0.25), (-0.125, 1.0))
+    for n in (0, 1, 3):
+        path = V.Path([V.PathFillRule(), V.InitialFillRule(1),
+                       V.ClosedPath(items=[K(V.ClosedKnotLinked if i % 2 else V.ClosedKnotUnlinked, 0.5 * i) for i in range(n)], operation=1, index=0),
+                       V.OpenPath(items=[K(V.OpenKnotLinked if i % 2 else V.OpenKnotUnlinked, 0.25 * i) for i in range(n)], operation=-1, index=7),
+                       V.ClipboardRecord(0.5, 0.25, 1.0, 0.75, 72.0)])
+        yield "VectorMaskSetting %d knots" % n, V.VectorMaskSetting(3, n, path)
+    yield "VectorMaskSetting empty path", V.VectorMaskSetting(3, 7, V.Path([]))
+    desc = D.Descriptor(items=[(b"Clr ", D.Integer(5))], name="", classID=b"null")
+    yield "VectorStrokeContentSetting", V.VectorStrokeContentSetting(items=list(desc.items()), name="", classID=b"null", key=b"SoCo", version=1)
+    # ---- linked layers
+    blk = lambda: D.DescriptorBlock(items=[(b"Nm  ", D.String("f"))], name="", classID=b"null", version=16)
+    for ver in range(1, 8):
+        tail = dict(child_id="c" if ver >= 5 else None, mod_time=1.5 if ver >= 6 else None, lock_state=1 if ver >= 7 else None)
+        yield "LinkedLayer DATA v%d" % ver, LL.LinkedLayers([LL.LinkedLayer(
+            LinkedLayerType.DATA, ver, "uuid-%d" % ver, "file.psd", b"8BPS", b"8BIM", None, blk() if ver % 2 else None, None, None,
+            bytes(range(ver * 3)), **tail)])
+        yield "LinkedLayer ALIAS v%d" % ver, LL.LinkedLayers([LL.LinkedLayer(
+            LinkedLayerType.ALIAS, ver, "", "", b"\0\0\0\0", b"\0\0\0\0", None, None, None, None, None, **tail)])
+        yield "LinkedLayer EXTERNAL v%d" % ver, LL.LinkedLayers([LL.LinkedLayer(
+            LinkedLayerType.EXTERNAL, ver, "u", "n", b"png ", b"    ", 12345, None, blk(), (2020, 1, 2, 3, 4, 5.5) if ver > 3 else None,
+            (b"ext" * ver) if ver > 1 else None, **tail)])
+    yield "LinkedLayers empty / two items", LL.LinkedLayers([])
+    # ---- filter effects
+    ch = [FE.FilterEffectChannel(0), FE.FilterEffectChannel(1), FE.FilterEffectChannel(1, 0, b"\x01\x02\x03"), FE.FilterEffectChannel(1, 1, b"")]
+    for ver in (1, 2, 3):
+        for mc in (0, 2):
+            for extra in (None, FE.FilterEffectExtra(0), FE.FilterEffectExtra(1, [0, 0, 3, 3], 1, b"xyz")):
+                yield "FilterEffects v%d max_channels %d extra %s" % (ver, mc, "none" if extra is None else extra.is_written), FE.FilterEffects(
+                    version=ver, items=[FE.FilterEffect("0123-uuid", ver % 2, (0, 0, 4, 4), 8, mc, [ch[i % 4] for i in range(mc + 2)], extra)])
+    yield "FilterEffects no item", FE.FilterEffects(version=1, items=[])
+    # ---- image resources
+    for l in ([], [1, 2 ** 32 - 1]):
+        yield "AlphaIdentifiers %d" % len(l), R.AlphaIdentifiers(l)
+        yield "LayerSelectionIDs %d" % len(l), R.LayerSelectionIDs(l)
+    for l in ([], ["a"], ["alpha 1", "x" * 255]):
+        yield "AlphaNamesPascal %d" % len(l), R.AlphaNamesPascal(l)
+        yield "AlphaNamesUnicode %d" % len(l), R.AlphaNamesUnicode(l)
+    ac = R.AlphaChannel(0, 65535, 0, 1, 2, 50, AlphaChannelMode(0))
+    for n in (0, 1, 3):
+        yield "DisplayInfo %d channels" % n, R.DisplayInfo(1, [ac] * n)
+        yield "GridGuidesInfo %d guides" % n, R.GridGuidesInfo(1, 576, 576, [(i * 100, i % 2) for i in range(n)])
+        yield "URLList %d" % n, R.URLList([R.URLItem(i, i + 1, "http://x/%d" % i) for i in range(n)])
+        yield "LayerGroupInfo %d" % n, R.LayerGroupInfo([65535 - i for i in range(n)])
+        yield "LayerGroupEnabledIDs %d" % n, R.LayerGroupEnabledIDs([255 - i for i in range(n)])
+    for n in (0, 4):
+        yield "HalftoneScreens %d" % n, R.HalftoneScreens([R.HalftoneScreen(72.0 + i, 1, 45.5 - i, i, bool(i % 2), not i % 2) for i in range(n)])
+        yield "TransferFunctions %d" % n, R.TransferFunctions([R.TransferFunction([i * 10 for i in range(13)], j % 2) for j in range(n)])
+    yield "PixelAspectRatio", R.PixelAspectRatio(value=1.5, version=1)
+    yield "PrintFlags 8", R.PrintFlags(True, False, True, False, True, False, True, False, None)
+    yield "PrintFlags 9", R.PrintFlags(False, True, False, True, False, True, False, True, True)
+    yield "PrintFlagsInfo", R.PrintFlagsInfo(1, 1, 2 ** 32 - 1, 65535)
+    yield "PrintScale", R.PrintScale(1, 0.5, -1.5, 2.0)
+    yield "ResoulutionInfo", R.ResoulutionInfo(72 << 16, 1, 2, 300 << 16, 2, 1)
+    sl = lambda i, origin: R.SliceV6(i, 0, origin, 9 if origin == 1 else None, "s%d" % i, 1, [0, 0, 10, 10], "u", "", "m", "", bool(i % 2), "t", 1, 2, 255, 1, 2, 3, None)
+    for n in (0, 1, 2):
+        yield "Slices v6 %d slices" % n, R.Slices(6, R.SlicesV6([0, 0, 64, 64], "doc", [sl(i, i % 2) for i in range(n)]))
+    yield "Slices v7 descriptor", R.Slices(7, blk())
+    for cls in (R.ThumbnailResource, R.ThumbnailResourceV4):
+        yield cls.__name__ + " empty", cls(1, 0, 0, 0, 0, 24, 1, b"")
+        yield cls.__name__ + " data", cls(1, 2, 2, 8, 16, 24, 1, bytes(range(16)))
+    yield "VersionInfo", R.VersionInfo(1, True, "w", "", 1)
+    yield "resource Byte", R.Byte(255)
+    yield "resource Integer", R.Integer(-2 ** 31)
+    yield "resource ShortInteger", R.ShortInteger(65535)
+    yield "resource Color", Color(7, [-1, 0, 1, 2])
+    yield "resource StringElement", StringElement("path/あ")
+    yield "resource DescriptorBlock", blk()
+
+
+def boundary_container_cases():
+    """(what, container, write args, read args, payload) for every boundary payload x every key its class is registered for,
+    tagged blocks in both file versions and both block paddings"""
+    from psd_tools.psd import image_resources as R, tagged_blocks as T
+
+    tkeys, rkeys = {}, {}
+    for k, c in T.TYPES.items():
+        tkeys.setdefault(c, []).append(k)
+    for k, c in R.TYPES.items():
+        rkeys.setdefault(c, []).append(k)
+    for label, obj in boundary_payloads():
+        cls = type(obj)
+        if label.startswith("resource "):
+            keys_t, keys_r = [], rkeys.get(cls, [])
+        else:
+            keys_t, keys_r = tkeys.get(cls, []), rkeys.get(cls, [])
+        for k in sorted(keys_r, key=int):
+            yield ("%s in resource %d" % (label, int(k)), R.ImageResource(b"8BIM", k, "", obj), ("macroman",), ("macroman",), obj)
+        for k in sorted(keys_t, key=lambda x: x.value):
+            for v, pad in ((1, 1), (1, 4), (2, 1), (2, 4)):
+                yield ("%s in block %s v%d pad%d" % (label, k.value.decode("ascii"), v, pad), T.TaggedBlock(b"8BIM", k, obj), (v, pad), (v, pad), obj)
